@@ -13,6 +13,7 @@ from typing import Mapping
 
 from typing_extensions import Protocol
 
+from liquid2.exceptions import LiquidValueError
 from liquid2.utils import LRUCache
 from liquid2.utils import ThreadSafeLRUCache
 
@@ -201,5 +202,9 @@ class CachingLoaderMixin(ABC, _CachingLoaderProtocol):
     def _namespaced(self, namespace: object, name: str) -> str:
         # Names can contain slashes too. Escaping them in the namespace keeps
         # "a" + "b/c" and "a/b" + "c" apart.
-        namespace = str(namespace).replace("%", "%25").replace("/", "%2F")
+        try:
+            namespace = str(namespace).replace("%", "%25").replace("/", "%2F")
+        except ValueError as err:
+            # Not every object can be converted to a string. A very long integer, say.
+            raise LiquidValueError(str(err), token=None) from err
         return f"{namespace}/{name}"
